@@ -262,9 +262,11 @@ class Flow(object):
     return {m.id for m in cfg.nodes if m.stmt is not None and id(m.stmt) in ids}
 
   def facts_inside(self, nid, loop_nid):
-    """required_facts(nid) restricted to tests evaluated inside the loop headed by loop_nid."""
+    """required_facts(nid) restricted to tests evaluated inside the loop headed by loop_nid (paths
+    are taken from the loop head, so this also works in code the normal CFG does not reach from
+    the function entry, like an except clause)."""
     body = self.loop_body(loop_nid)
-    return [f for f in self.required_facts(nid) if f[2] in body]
+    return [f for f in self.required_facts(nid, start=loop_nid) if f[2] in body]
 
   # ---------------------------------------------------------------- values
   def resolve(self, expr, nid, depth=8):
@@ -454,7 +456,7 @@ class Flow(object):
           edges |= {(n.id, s) for s in succs}
     return edges
 
-  def required_facts(self, nid):
+  def required_facts(self, nid, start=None):
     """[(expr, polarity, if-node id)]: what every path to nid has established at an `if` (no kill
     analysis: an over-approximation of the conditions a node runs under). A test that cannot be
     decomposed on the required side is reported whole."""
@@ -468,7 +470,7 @@ class Flow(object):
         edges = {(n.id, s) for s in succs}
         if not edges:
           continue
-        if nid not in self._cut_reach({cfg.entry.id}, edges):
+        if nid not in self._cut_reach({cfg.entry.id if start is None else start}, edges):
           for (e, p) in nfacts(n.stmt.test, pol, full=True):
             r, rn = self.resolve(e, n.id) if isinstance(e, ast.Name) else (e, n.id)
             if r is not e and isinstance(r, (ast.Compare, ast.BoolOp, ast.UnaryOp, ast.Call)):
